@@ -32,8 +32,28 @@ type FCtx struct {
 
 // FPos is an instruction occurrence in the flat view.
 type FPos struct {
-	Ctx *FCtx
-	In  ssa.Instruction
+	Ctx   *FCtx
+	In    ssa.Instruction
+	facts *ffact
+}
+
+// ReturnsFailure: the occurrence is a return whose error result is the error of an expanded call
+// that, on this path, returned through a certainly-failing return (`return k.step(...)` after step failed).
+func (p FPos) ReturnsFailure() bool {
+	ret, ok := p.In.(*ssa.Return)
+	if !ok {
+		return false
+	}
+	ei := ErrIndex(p.Ctx.Fn)
+	if ei < 0 || ei >= len(ret.Results) {
+		return false
+	}
+	call, idx := errSource(ret.Results[ei])
+	if call == nil {
+		return false
+	}
+	nonNil, known := p.facts.lookup(call, idx)
+	return known && nonNil
 }
 
 // Chain renders the call chain of a context, root first.
@@ -300,7 +320,7 @@ func (w *World) FlatWalk(root *FCtx, from *FPos, cut *FlatCut, visit func(FPos) 
 		stopped := false
 		for i := s.i; i < len(s.b.Instrs); i++ {
 			in := s.b.Instrs[i]
-			if !visit(FPos{s.ctx, in}) {
+			if !visit(FPos{s.ctx, in, s.facts}) {
 				return true
 			}
 			if cut.Barrier != nil && cut.Barrier(s.ctx, in) {
@@ -434,7 +454,7 @@ func (w *World) FlatMustPass(fn *ssa.Function, barrier func(ssa.Instruction) boo
 	var out []*ssa.Return
 	seen := map[ssa.Instruction]bool{}
 	w.FlatWalk(root, nil, cut, func(p FPos) bool {
-		if p.Ctx == root && success[p.In] && !seen[p.In] {
+		if p.Ctx == root && success[p.In] && !seen[p.In] && !p.ReturnsFailure() {
 			seen[p.In] = true
 			out = append(out, p.In.(*ssa.Return))
 		}
@@ -456,5 +476,34 @@ func (w *World) FlatPrecedes(fn *ssa.Function, isA func(ssa.Instruction) bool, i
 			return nil
 		}
 	}
+	return w.FlatReaches(root, nil, cut, func(p FPos) bool { return isB(p.In) }) == nil
+}
+
+// FlatMustPassM is FlatMustPass with the deleted edges given by a matcher, evaluated in every call
+// context (e.g. "the amount is zero": the early-return edge of the root and the skip edge inside a wrapper).
+func (w *World) FlatMustPassM(fn *ssa.Function, barrier func(ssa.Instruction) bool, m Matcher) []*ssa.Return {
+	root := w.FlatRoot(fn)
+	success := map[ssa.Instruction]bool{}
+	for _, r := range w.SuccessReturns(fn) {
+		success[r] = true
+	}
+	cut := &FlatCut{Matcher: m, Barrier: func(_ *FCtx, in ssa.Instruction) bool { return barrier(in) }}
+	var out []*ssa.Return
+	seen := map[ssa.Instruction]bool{}
+	w.FlatWalk(root, nil, cut, func(p FPos) bool {
+		if p.Ctx == root && success[p.In] && !seen[p.In] && !p.ReturnsFailure() {
+			seen[p.In] = true
+			out = append(out, p.In.(*ssa.Return))
+		}
+		return true
+	})
+	return out
+}
+
+// FlatPrecedesM: no occurrence of a B-instruction is reachable from the entry of fn without executing an
+// A-instruction first, in the flat view with the matcher's edges deleted.
+func (w *World) FlatPrecedesM(fn *ssa.Function, isA, isB func(ssa.Instruction) bool, m Matcher) bool {
+	root := w.FlatRoot(fn)
+	cut := &FlatCut{Matcher: m, Barrier: func(_ *FCtx, in ssa.Instruction) bool { return isA(in) && !isB(in) }}
 	return w.FlatReaches(root, nil, cut, func(p FPos) bool { return isB(p.In) }) == nil
 }
